@@ -73,7 +73,7 @@ def r1(ctx):
     pl = conntask.plumbing(ctx)
     hb = f.one(CLIENT + "::handle")
     durs = pl["timeout_durations"]
-    okto = bool(durs) and all(F(P("config"), "timeout_secs") in atoms(d) and any(isinstance(x, tuple) and x[0] == "call" and x[1].endswith("Duration::from_secs") for x in atoms(d)) for d in durs)
+    okto = bool(durs) and all(F(P("config"), "timeout_secs") in atoms(d) and any(isinstance(x, tuple) and x[0] == "call" and (x[1].endswith("Duration::from_secs") or (x[1].endswith("Duration::new") and len(x[3]) == 2 and x[3][1] == 0)) for x in atoms(d)) for d in durs)
     rep.check(okto, "handle:timeout(read_frame)", "every read is bounded by from_secs(server config timeout)", "the idle timeout of a connection is %s, not Duration::from_secs of the server configuration's timeout" % (sorted(set(short(d, 60) for d in durs)) or "absent"), hb.loc())
     rep.check(pl["client"] is not None, "client-config:rx-timeout", "the server configuration reaches the Client built in the accept loop", "cannot follow the configuration from MemcacheTcpServer::new to the Client built in the accept loop", hb.loc())
     ls = pl["listen_args"]
@@ -279,11 +279,11 @@ def r4(ctx):
     tb = f.one("<memcrs::server::timer::SystemTimer as memcrs::server::timer::Timer>::timestamp")
     oka = okt = False
     for p in Interp(f).run(ab, [P("self")]):
-        c = [e for e in p.events if e.kind == "call"]
-        oka = len(c) == 1 and c[0].name.endswith("fetch_add") and tform(c[0].args[0]) == F(P("self"), "seconds") and c[0].args[1] == 1
+        c = [e for e in p.events if e.kind == "call" and "tomic" in e.name and e.args and tform(e.args[0]) == F(P("self"), "seconds")]
+        oka = len(c) == 1 and c[0].name.endswith("fetch_add") and c[0].args[1] == 1
     for p in Interp(f).run(tb, [P("self")]):
-        c = [e for e in p.events if e.kind == "call"]
-        okt = len(c) == 1 and c[0].name.endswith("::load") and tform(c[0].args[0]) == F(P("self"), "seconds") and tform(p.ret) == c[0].result
+        c = [e for e in p.events if e.kind == "call" and "tomic" in e.name and e.args and tform(e.args[0]) == F(P("self"), "seconds")]
+        okt = len(c) == 1 and c[0].name.endswith("::load") and tform(p.ret) == c[0].result
     rep.check(oka, "timer:add_second", "seconds.fetch_add(1)", "add_second does not advance the seconds counter by exactly 1", ab.loc())
     rep.check(okt, "timer:timestamp", "timestamp() = seconds.load()", "timestamp() does not read the counter that add_second advances", tb.loc())
     return rep
